@@ -218,10 +218,12 @@ func (w *world) begin() string {
 	if err != nil {
 		panic(err)
 	}
-	w.checker, err = staticchecker.New(ctx, staticchecker.WithPermissions(w.perms))
+	chk, err := staticchecker.New(ctx, staticchecker.WithPermissions(w.perms))
 	if err != nil {
+		w.checker = nil
 		return "newfail"
 	}
+	w.checker = chk
 	w.openRules()
 	return "ok"
 }
